@@ -17,6 +17,7 @@ type CalleeSpec struct {
 	Params   []string     // names, receiver first
 	ParamTys []types.Type // same order
 	Results  []types.Type
+	ResNames []string  // names of named results ("" = unnamed): bound to the call's results in the callee's ensures
 	ScopePos token.Pos // where free names of the contract are resolved
 	Inout0   bool      // first param is a pointer to a value struct passed in-out
 	NoReturn bool
@@ -194,8 +195,13 @@ func (fv *FV) appendCall(call *ast.CallExpr, cx *Cx) TV {
 		a2 := fv.decl(fv.fresh("arr"), arr(SInt, es))
 		fv.assume(cx.st, fmt.Sprintf("(forall ((j! Int)) (! (=> (and (<= 0 j!) (< j! %s)) (= (select %s j!) (ite (< j! %s) (select %s (+ %s j!)) (select %s (+ %s (- j! %s)))))) :pattern ((select %s j!))))",
 			newLen, a2, ln, dst, off, src, to, ln, a2))
-		fv.set(cx.st, cell, cs, ite(fits, sto(e, base, a1), sto(e, nb, a2)))
-		return TV{T: ite(fits, sx("mk_Slice", base, off, newLen, cp), sx("mk_Slice", nb, "0", newLen, ncap)), Ty: s.Ty, S: "Slice"}
+		// one store at the (case-dependent) base of the case-dependent contents: select(E', base') is ares directly
+		ares := fv.decl(fv.fresh("arr"), arr(SInt, es))
+		rbase := fv.decl(fv.fresh("base"), SInt)
+		fv.emit(fmt.Sprintf("(assert (= %s %s))", ares, ite(fits, a1, a2)))
+		fv.emit(fmt.Sprintf("(assert (= %s %s))", rbase, ite(fits, base, nb)))
+		fv.set(cx.st, cell, cs, sto(e, rbase, ares))
+		return TV{T: sx("mk_Slice", rbase, ite(fits, off, "0"), newLen, ite(fits, cp, ncap)), Ty: s.Ty, S: "Slice"}
 	}
 	cur := s.T
 	for _, a := range call.Args[1:] {
@@ -402,6 +408,29 @@ func (fv *FV) contractCall(name string, call *ast.CallExpr, cx *Cx) (TV, bool) {
 		}
 		val := fv.get(cx.st, "MV!"+cell, arr(SInt, arr(ks, vs)))
 		return TV{T: sel(sel(val, m.T), k.T), S: vs, Ty: mt.Elem()}, true
+	case "mapHasIn", "mapGetIn":
+		// mapHasIn("K!V", m, k) / mapGetIn("K!V", m, k, ValueType): map cells named explicitly (m is a plain reference)
+		lit, ok := call.Args[0].(*ast.BasicLit)
+		if !ok {
+			panic(refuse("%s: first argument must be the cell name string", name))
+		}
+		kv := strings.Trim(lit.Value, "\"")
+		fv.cellForField("MapDom." + kv)
+		ks, vs := Sort(kv[:strings.Index(kv, "!")]), Sort(kv[strings.Index(kv, "!")+1:])
+		m := fv.expr(call.Args[1], cx)
+		k := fv.expr(call.Args[2], cx)
+		if name == "mapHasIn" {
+			dom := fv.get(cx.st, "MD!"+kv, arr(SInt, arr(ks, SBool)))
+			return b(sel(sel(dom, m.T), k.T))
+		}
+		val := fv.get(cx.st, "MV!"+kv, arr(SInt, arr(ks, vs)))
+		var ty types.Type
+		if len(call.Args) > 3 {
+			if obj, ok := u.Pkg.Types.Scope().Lookup(call.Args[3].(*ast.Ident).Name).(*types.TypeName); ok {
+				ty = obj.Type()
+			}
+		}
+		return TV{T: sel(sel(val, m.T), k.T), S: vs, Ty: ty}, true
 	case "frameExcept":
 		// frameExcept("Cell.name", ref...): every object other than the listed references is as at function entry
 		lit, ok := call.Args[0].(*ast.BasicLit)
@@ -510,6 +539,11 @@ func (fv *FV) contractCall(name string, call *ast.CallExpr, cx *Cx) (TV, bool) {
 
 // readsCell gives the current term of a heap cell named as in a modifies clause ("Node.Forward").
 func (fv *FV) readsCell(name string, cx *Cx) string {
+	switch {
+	case strings.HasPrefix(name, "Elems."), strings.HasPrefix(name, "MapDom."), strings.HasPrefix(name, "MapVal."):
+		cell := fv.cellForField(name)
+		return fv.get(cx.st, cell, fv.u.cellSortByName(name))
+	}
 	for _, pre := range []string{"H!", "G!"} {
 		if s, ok := fv.cellSort[pre+name]; ok {
 			return fv.get(cx.st, pre+name, s)
@@ -518,7 +552,7 @@ func (fv *FV) readsCell(name string, cx *Cx) string {
 	// resolve the field to learn its sort
 	k := strings.Index(name, ".")
 	if k > 0 {
-		if obj, ok := fv.u.Pkg.Types.Scope().Lookup(name[:k]).(*types.TypeName); ok {
+		if obj := fv.u.lookupTypeName(name[:k]); obj != nil {
 			if st, ok := obj.Type().Underlying().(*types.Struct); ok {
 				for i := 0; i < st.NumFields(); i++ {
 					if st.Field(i).Name() == name[k+1:] {
@@ -655,6 +689,9 @@ func (fv *FV) specForFunc(fi *FuncInfo) *CalleeSpec {
 		panic(refuse("callee %s has no contract", fi.Key))
 	}
 	cs := &CalleeSpec{Key: fi.Key, FC: fc, ScopePos: fi.Body.Lbrace + 1}
+	if fc.Trusted {
+		u.Assumptions["trusted contract of "+fi.Key+" (body not verified)"] = true
+	}
 	if r := fi.Sig.Recv(); r != nil {
 		cs.Params = append(cs.Params, r.Name())
 		cs.ParamTys = append(cs.ParamTys, r.Type())
@@ -671,6 +708,7 @@ func (fv *FV) specForFunc(fi *FuncInfo) *CalleeSpec {
 	}
 	for i := 0; i < fi.Sig.Results().Len(); i++ {
 		cs.Results = append(cs.Results, fi.Sig.Results().At(i).Type())
+		cs.ResNames = append(cs.ResNames, fi.Sig.Results().At(i).Name())
 	}
 	return cs
 }
@@ -749,7 +787,9 @@ func (fv *FV) contractedCall(call *ast.CallExpr, cx *Cx) []TV {
 		for _, r := range cs.FC.Requires {
 			for _, cj := range fv.conjunctsIn(r.Expr, ccx) {
 				n := fv.ordinal("requires@" + cs.Key)
-				fv.oblige(st, "requires", fmt.Sprintf("requires@%s[%d]", cs.Key, n), cj.term, "precondition of "+cs.Key+": "+cj.text, call.Pos(), cx)
+				if ob := fv.oblige(st, "requires", fmt.Sprintf("requires@%s[%d]", cs.Key, n), cj.term, "precondition of "+cs.Key+": "+cj.text, call.Pos(), cx); ob != nil {
+					ob.Props = r.Tag
+				}
 			}
 		}
 	}
@@ -786,7 +826,7 @@ func (fv *FV) contractedCall(call *ast.CallExpr, cx *Cx) []TV {
 				benv[m.Bound] = TV{T: "r!", S: SInt, Ty: fv.refTypeOfField(f)}
 				cond := fv.expr(m.Where, ccx.with(func(c *Cx) { c.env = benv; c.inOld = true })).T
 				lowb := "(< 0 r!)"
-				if !strings.HasPrefix(cell, "H!") && !strings.HasPrefix(cell, "G!") {
+				if !strings.HasPrefix(cell, "H!") && !strings.HasPrefix(cell, "G!") && !strings.HasPrefix(cell, "P!") {
 					lowb = "(<= 0 r!)" // slice bases and map references: the nil slice/map has base 0
 				}
 				fv.assume(st, fmt.Sprintf("(forall ((r! Int)) (! (=> (and "+lowb+" (< r! %s) %s) (= %s %s)) :pattern (%s)))",
@@ -800,8 +840,13 @@ func (fv *FV) contractedCall(call *ast.CallExpr, cx *Cx) []TV {
 	// results
 	var res []TV
 	for i, rt := range cs.Results {
+		if _, isTP := rt.(*types.TypeParam); isTP && len(cs.Results) == 1 {
+			if at := u.Info.TypeOf(call); at != nil {
+				rt = at // generic result type: use the instantiated type of the call
+			}
+		}
 		s := u.sortOf(rt)
-		c := fv.decl(fv.fresh("ret"), s)
+		c := fv.decl(fv.fresh("ret!"+shortCallee(cs.Key)), s) // named after the callee: readable countermodels
 		fv.assume(st, fv.typeFacts(rt, c, st))
 		tv := TV{T: c, Ty: rt, S: s}
 		res = append(res, tv)
@@ -809,6 +854,11 @@ func (fv *FV) contractedCall(call *ast.CallExpr, cx *Cx) []TV {
 			env["result"] = tv
 		}
 		env[fmt.Sprintf("result%d", i)] = tv
+		if i < len(cs.ResNames) && cs.ResNames[i] != "" && cs.ResNames[i] != "_" {
+			if _, shadows := env[cs.ResNames[i]]; !shadows {
+				env[cs.ResNames[i]] = tv // a named result denotes the value returned
+			}
+		}
 	}
 	if cs.Inout0 && recvLoc != nil {
 		c := fv.decl(fv.fresh("recv"), recvLoc.sort)
@@ -835,6 +885,20 @@ func (fv *FV) contractedCall(call *ast.CallExpr, cx *Cx) []TV {
 		fv.write(recvLoc, env[cs.Params[0]].T, cx)
 	}
 	return res
+}
+
+// shortCallee: last component of a callee key, restricted to symbol characters ("(os.File).Close" -> "File.Close").
+func shortCallee(key string) string {
+	if k := strings.LastIndex(key, "/"); k >= 0 {
+		key = key[k+1:]
+	}
+	var sb strings.Builder
+	for _, c := range key {
+		if c >= 'a' && c <= 'z' || c >= 'A' && c <= 'Z' || c >= '0' && c <= '9' || c == '.' || c == '_' {
+			sb.WriteRune(c)
+		}
+	}
+	return sb.String()
 }
 
 // conjunctsIn / exprIn evaluate a callee's contract expression: parameters are bound in env and
@@ -910,6 +974,13 @@ func (fv *FV) cellForField(f string) string {
 			return "MD!" + kv
 		}
 		return "MV!" + kv
+	case strings.HasPrefix(f, "Ptr."):
+		cell := "P!" + f[4:]
+		if _, ok := fv.cellSort[cell]; !ok {
+			fv.cellSort[cell] = arr(SInt, Sort(f[4:]))
+			fv.decl(cell+"@0", fv.cellSort[cell])
+		}
+		return cell
 	}
 	if _, ok := fv.u.CS.GhostFields[f]; ok {
 		fv.readsCell(f, &Cx{st: fv.entry})
